@@ -21,19 +21,23 @@ func init() {
 			"Y-start — every path that hands out a queue-backed handler has started its copy loop. " +
 			"Y-codec — the queue row written by enqueue (key: Ref.String of the job, value: decimal size) is what the reload parser reads (blob.Parse, base-10 ParseUint of at least 32 bits) and what the dequeue deletes (same key function). " +
 			"Y-merge — ListMissingDestinationBlobs closes destMissing on every exit; a source element is taken without being sent to destMissing only under the fact that it equals the destination's head; everything sent comes from the source. " +
-			"NOT decided: eventual delivery (liveness of the copy loop, wake-ups, retry timing), bit-identity of what a destination stores, behaviour of the queue KV itself across a crash, interleavings of enqueue with a concurrent copy, that every store receives blobs only through blobserver.Receive (C02), any concrete fault schedule or restart.",
+			"Y-enum-close — the enumerator values are computed, not listed: every call of a value of the type of runSync's enumSrc parameter in pkg/server, with the functions it can denote (static callee, method value, closure, the literal returned by a helper, the arguments of every static caller when the value is a parameter); each such enumerator closes its output channel on every path to every return (close, defer, deferred literal, or a callee/literal that is itself checked), because its consumer (runSync, readQueueToMemory) receives from that channel until it is closed. " +
+			"Y-stop — in every consumer, on every path that leaves the loop receiving from the element channel on another edge than 'channel closed' and then reaches a receive of the enumerator's result, the interrupt channel handed to the enumerator has been closed before that receive (a plain close, a local function or sync.Once/sync.OnceFunc wrapper all of whose functions close it; a deferred close in the consumer's own frame does not count, it runs after the wait); every enumerator of a consumer that can leave its loop early sends on its output channel only as a case of a select that also receives from its interrupt parameter (or that has a default case), helpers handed both channels included. " +
+			"NOT decided: eventual delivery in general (wake-ups, retry timing, termination of the enumerated stores' own EnumerateBlobs, that an interrupted enumerator returns promptly, that enumeratePendingBlobs' batch bound stays below the capacity of the work channel — no longer needed for liveness once Y-stop holds, and not phrased as a rule), bit-identity of what a destination stores, behaviour of the queue KV itself across a crash, interleavings of enqueue with a concurrent copy, that every store receives blobs only through blobserver.Receive (C02), any concrete fault schedule or restart.",
 		RuleDocs: map[string]string{
-			"Y-dequeue": "enumerates every use of field SyncHandler.queue, every delete on SyncHandler.needCopy, every caller of the completion function and every may-be-nil error return of the copy function; guards by dominance (err==nil), value dependence (fetch -> tee(hash) -> buffer -> destination) and equality facts (acknowledged size == sent size)",
-			"Y-enqueue": "enumerates builders of queue-backed handlers (hook registration on all paths, right hub, right method), returns of enqueue, callers of enqueue, hook invocations in BlobHub implementations and callers of NotifyBlobReceived",
-			"Y-reload":  "enumerates builders of queue-backed handlers (reload on all handler-returning paths, failure hands out nothing), the reload function (element flow, error flow) and the queue enumerator (full scan, rows skipped only on parse failure, Close error returned)",
-			"Y-start":   "every handler-returning path of a builder starts the copy loop (go syncLoop, or a go literal all of whose paths reach syncLoop)",
-			"Y-codec":   "writer/reader/deleter agreement on the queue row encoding",
-			"Y-merge":   "ListMissingDestinationBlobs: close on every exit; source takes are sent unless matched; sends come from the source",
+			"Y-dequeue":    "enumerates every use of field SyncHandler.queue, every delete on SyncHandler.needCopy, every caller of the completion function and every may-be-nil error return of the copy function; guards by dominance (err==nil), value dependence (fetch -> tee(hash) -> buffer -> destination) and equality facts (acknowledged size == sent size)",
+			"Y-enqueue":    "enumerates builders of queue-backed handlers (hook registration on all paths, right hub, right method), returns of enqueue, callers of enqueue, hook invocations in BlobHub implementations and callers of NotifyBlobReceived",
+			"Y-reload":     "enumerates builders of queue-backed handlers (reload on all handler-returning paths, failure hands out nothing), the reload function (element flow, error flow) and the queue enumerator (full scan, rows skipped only on parse failure, Close error returned)",
+			"Y-start":      "every handler-returning path of a builder starts the copy loop (go syncLoop, or a go literal all of whose paths reach syncLoop)",
+			"Y-codec":      "writer/reader/deleter agreement on the queue row encoding",
+			"Y-merge":      "ListMissingDestinationBlobs: close on every exit; source takes are sent unless matched; sends come from the source",
+			"Y-enum-close": "enumerates every call of an enumerator-typed value (type of runSync's enumSrc parameter) in pkg/server and the functions that can flow into it; each closes its output channel on all paths to all returns (the consumer receives until the channel is closed)",
+			"Y-stop":       "per consumer: every early exit of the receive loop that reaches the wait for the enumerator's result has closed the interrupt channel first (closures, sync.Once and sync.OnceFunc resolved; the consumer's own defers do not count); per enumerator of such a consumer: every send on the output channel is a select case next to a receive from the interrupt parameter",
 		},
 		Run:       runC19,
 		DesignRef: "DESIGN.md §4 C19",
-		Technique: "static analysis: dominance on err==nil edges, CFG all-paths exploration with failure assumption, value-dependence slices (fetch/hash/buffer/destination), equality-fact closure, who-may-use enumeration of a struct field, writer/reader table agreement — all over go/ssa of the current tree",
-		LevelText: "Decides structural necessary conditions only: a queue row is deleted only behind a verified, acknowledged copy; received blobs are enqueued persistently with errors propagated to the uploader; the queue is reloaded (and the copy loop started) before a handler is handed out; the source-minus-destination merge never drops an unmatched source element. Does not decide liveness, timing, crash behaviour of the KV, or any dynamic schedule.",
+		Technique: "static analysis: dominance on err==nil edges, CFG all-paths exploration with failure assumption, value-dependence slices (fetch/hash/buffer/destination), equality-fact closure, who-may-use enumeration of a struct field, writer/reader table agreement, function-value resolution (method values, returned literals, caller arguments) and channel-protocol path exploration (close on all exits; interrupt closed before the wait on every early loop exit; sends paired with the interrupt in one select) — all over go/ssa of the current tree",
+		LevelText: "Decides structural necessary conditions only: a queue row is deleted only behind a verified, acknowledged copy; received blobs are enqueued persistently with errors propagated to the uploader; the queue is reloaded (and the copy loop started) before a handler is handed out; the source-minus-destination merge never drops an unmatched source element; two structural liveness conditions of the copy loop hold: every enumerator closes the channel its consumer ranges over, and a consumer that stops consuming early interrupts the (interruptible) enumerator before it waits for it, so neither start-up, the full sync nor the periodic queue sync can block for ever on that hand-shake. Does not decide liveness in general, timing, crash behaviour of the KV, or any dynamic schedule.",
 	})
 }
 
@@ -75,12 +79,15 @@ func runC19(p *Program, r *Reporter) {
 	c19YReload(p, r, a)
 	c19YCodec(p, r, a)
 	c19YMerge(p, r)
+	c19YEnumProtocol(p, r)
 	r.Floor("Y-dequeue", 11)
 	r.Floor("Y-enqueue", 11)
 	r.Floor("Y-reload", 7)
 	r.Floor("Y-start", 2)
 	r.Floor("Y-codec", 3)
 	r.Floor("Y-merge", 6)
+	r.Floor("Y-enum-close", 5)
+	r.Floor("Y-stop", 5)
 }
 
 // ---------------------------------------------------------------------------
@@ -1928,4 +1935,827 @@ func c19YMerge(p *Program, r *Reporter) {
 	if nTakes == 0 {
 		r.Violation("Y-merge", key+"#src-take", p.Pos(fn.Pos()), "the source enumeration is never consumed")
 	}
+}
+
+// ---------------------------------------------------------------------------
+// Y-enum-close / Y-stop: the enumerator protocol of the copy loop
+//
+// An "enumerator" is a function value of the type of runSync's enumSrc
+// parameter: func(dst chan<- blob.SizedRef, intr <-chan struct{}) error. A
+// "launch" is a call of such a value in pkg/server; the function that made the
+// dst channel and receives from it is the "consumer".
+
+type c19Launch struct {
+	call    CallSite
+	top     *ssa.Function // outermost function containing the call
+	callees []*ssa.Function
+	why     string // why the callee set could not be computed ("" = computed)
+	dst     ssa.Value
+	intr    ssa.Value
+}
+
+type c19EnumInst struct {
+	fn        *ssa.Function
+	dst, intr *ssa.Parameter
+	consumers []string // consumers that launch it
+	earlyExit []string // those of them that can leave their receive loop before the channel is closed
+}
+
+func c19IsChan(t types.Type) bool {
+	_, ok := t.Underlying().(*types.Chan)
+	return ok
+}
+
+// c19EnumSig finds the enumerator type: the unique parameter of runSync whose
+// type is a func(sendable chan, receivable chan) error.
+func c19EnumSig(runSync *ssa.Function) (*types.Signature, int) {
+	var sig *types.Signature
+	idx := -1
+	for i, prm := range runSync.Params {
+		s, ok := prm.Type().Underlying().(*types.Signature)
+		if !ok || s.Params().Len() != 2 || s.Results().Len() != 1 || !isErrorType(s.Results().At(0).Type()) {
+			continue
+		}
+		c0, ok0 := s.Params().At(0).Type().Underlying().(*types.Chan)
+		c1, ok1 := s.Params().At(1).Type().Underlying().(*types.Chan)
+		if !ok0 || !ok1 || c0.Dir() == types.RecvOnly || c1.Dir() == types.SendOnly {
+			continue
+		}
+		if sig != nil {
+			brokenf("anchor unresolved: %s has more than one enumerator-typed parameter", FuncKey(runSync))
+		}
+		sig, idx = s, i
+	}
+	if sig == nil {
+		brokenf("anchor unresolved: %s has no parameter of type func(chan<- T, <-chan struct{}) error", FuncKey(runSync))
+	}
+	return sig, idx
+}
+
+func c19ClosureFn(v ssa.Value) *ssa.Function {
+	switch x := originValue(v).(type) {
+	case *ssa.MakeClosure:
+		f, _ := x.Fn.(*ssa.Function)
+		return f
+	case *ssa.Function:
+		return x
+	}
+	return nil
+}
+
+// c19ResolveFuncs computes the set of functions a func-typed value may denote:
+// closures, method values, declared functions, results of static callees (the
+// returned literal is followed) and parameters (the arguments of every static
+// caller are followed). why != "" when the set cannot be computed.
+func c19ResolveFuncs(p *Program, v ssa.Value, depth int, seen map[ssa.Value]bool) (fns []*ssa.Function, why string) {
+	o := originValue(v)
+	if o == nil {
+		return nil, "no value"
+	}
+	if seen[o] {
+		return nil, ""
+	}
+	seen[o] = true
+	if depth > 4 {
+		return nil, "function value not followed beyond four levels"
+	}
+	fromResult := func(call *ssa.Call, idx int) ([]*ssa.Function, string) {
+		g := (CallSite{call.Parent(), call}).Callee()
+		if g == nil || g.Blocks == nil {
+			return nil, "function value returned by a call that cannot be resolved statically"
+		}
+		var out []*ssa.Function
+		for _, ri := range Returns(g) {
+			if idx >= len(ri.Results) {
+				return nil, "result index out of range in " + FuncKey(g)
+			}
+			fs, w := c19ResolveFuncs(p, ri.Results[idx], depth+1, seen)
+			if w != "" {
+				return nil, "result of " + FuncKey(g) + ": " + w
+			}
+			out = append(out, fs...)
+		}
+		return out, ""
+	}
+	switch x := o.(type) {
+	case *ssa.MakeClosure:
+		f, _ := x.Fn.(*ssa.Function)
+		if f == nil {
+			return nil, "closure over an unknown function"
+		}
+		if strings.HasPrefix(f.Synthetic, "bound method wrapper") {
+			if obj, ok := f.Object().(*types.Func); ok {
+				if m := p.SSA.FuncValue(obj); m != nil && m.Blocks != nil {
+					return []*ssa.Function{m}, ""
+				}
+			}
+			return nil, "method value of a method without body (interface method value)"
+		}
+		if f.Blocks == nil {
+			return nil, "closure without body"
+		}
+		return []*ssa.Function{f}, ""
+	case *ssa.Function:
+		if x.Blocks == nil {
+			return nil, "function without body: " + FuncKeyAny(x)
+		}
+		return []*ssa.Function{x}, ""
+	case *ssa.Call:
+		return fromResult(x, 0)
+	case *ssa.Extract:
+		if call, ok := x.Tuple.(*ssa.Call); ok {
+			return fromResult(call, x.Index)
+		}
+	case *ssa.Phi:
+		var out []*ssa.Function
+		for _, e := range x.Edges {
+			fs, w := c19ResolveFuncs(p, e, depth+1, seen)
+			if w != "" {
+				return nil, w
+			}
+			out = append(out, fs...)
+		}
+		return out, ""
+	case *ssa.Parameter:
+		F := x.Parent()
+		if F.Parent() != nil {
+			return nil, "parameter of a function literal"
+		}
+		idx := -1
+		for i, prm := range F.Params {
+			if prm == x {
+				idx = i
+			}
+		}
+		if idx < 0 {
+			return nil, "parameter not found"
+		}
+		if n := len(p.FuncValueUses(F)) + len(p.InvokeSites(F)); n > 0 {
+			return nil, fmt.Sprintf("%s is used as a value or through an interface (%d site(s)); the arguments it receives cannot be enumerated", FuncKey(F), n)
+		}
+		var out []*ssa.Function
+		for _, c := range p.StaticCallers(F) {
+			if c.Fn.Synthetic != "" {
+				return nil, FuncKey(F) + " is called from a synthetic wrapper; the arguments it receives cannot be enumerated"
+			}
+			if idx >= len(c.Args()) {
+				return nil, "argument index out of range at a caller of " + FuncKey(F)
+			}
+			fs, w := c19ResolveFuncs(p, c.Args()[idx], depth+1, seen)
+			if w != "" {
+				return nil, "argument in " + FuncKey(c.Fn) + ": " + w
+			}
+			out = append(out, fs...)
+		}
+		return out, ""
+	}
+	return nil, fmt.Sprintf("function value of kind %T is not followed (reassigned variable, field, map or interface)", o)
+}
+
+// c19ChanUse is one use of a channel value (identified by its origin: the
+// MakeChan or the Parameter) in a function or the literals nested in it.
+type c19ChanUse struct {
+	kind string // send, select-send, select-recv, recv, recv-ok, close, arg, escape
+	in   ssa.Instruction
+	arg  int // kind "arg": index into CallSite.Args()
+}
+
+func c19ChanUses(top *ssa.Function, root ssa.Value) []c19ChanUse {
+	var out []c19ChanUse
+	match := func(v ssa.Value) bool {
+		return v != nil && c19IsChan(v.Type()) && originValue(v) == root
+	}
+	var walk func(f *ssa.Function)
+	walk = func(f *ssa.Function) {
+		for _, b := range f.Blocks {
+			for _, in := range b.Instrs {
+				switch x := in.(type) {
+				case *ssa.DebugRef, *ssa.ChangeType:
+					continue
+				case *ssa.Send:
+					if match(x.Chan) {
+						out = append(out, c19ChanUse{"send", in, 0})
+					}
+					if match(x.X) {
+						out = append(out, c19ChanUse{"escape", in, 0})
+					}
+					continue
+				case *ssa.Select:
+					for _, st := range x.States {
+						if match(st.Chan) {
+							k := "select-recv"
+							if st.Dir == types.SendOnly {
+								k = "select-send"
+							}
+							out = append(out, c19ChanUse{k, in, 0})
+						}
+						if st.Send != nil && match(st.Send) {
+							out = append(out, c19ChanUse{"escape", in, 0})
+						}
+					}
+					continue
+				case *ssa.UnOp:
+					if x.Op == token.ARROW && match(x.X) {
+						k := "recv"
+						if x.CommaOk {
+							k = "recv-ok"
+						}
+						out = append(out, c19ChanUse{k, in, 0})
+					}
+					continue
+				case *ssa.BinOp:
+					continue // comparison with nil / another channel
+				case *ssa.Store:
+					if match(x.Val) {
+						al, ok := x.Addr.(*ssa.Alloc)
+						if !ok || !plainVariable(al) || len(storesTo(al)) != 1 {
+							out = append(out, c19ChanUse{"escape", in, 0})
+						}
+					}
+					continue
+				case *ssa.Phi:
+					if originValue(x) == root {
+						continue
+					}
+				case ssa.CallInstruction:
+					cc := x.Common()
+					if bi, ok := cc.Value.(*ssa.Builtin); ok {
+						for _, a := range cc.Args {
+							if match(a) {
+								switch bi.Name() {
+								case "close":
+									out = append(out, c19ChanUse{"close", in, 0})
+								case "len", "cap":
+								default:
+									out = append(out, c19ChanUse{"escape", in, 0})
+								}
+							}
+						}
+						continue
+					}
+					for i, a := range (CallSite{f, x}).Args() {
+						if match(a) {
+							out = append(out, c19ChanUse{"arg", in, i})
+						}
+					}
+					continue
+				}
+				for _, op := range in.Operands(nil) {
+					if *op != nil && match(*op) {
+						out = append(out, c19ChanUse{"escape", in, 0})
+						break
+					}
+				}
+			}
+		}
+		for _, a := range f.AnonFuncs {
+			walk(a)
+		}
+	}
+	walk(top)
+	return out
+}
+
+// c19Closer decides "this instruction closes channel root" and "every path
+// through fn closes channel root".
+type c19Closer struct {
+	notes []string
+	memo  map[[2]any]int // 0 unknown, 1 in progress, 2 yes, 3 no
+	leak  map[[2]any]string
+}
+
+func newC19Closer() *c19Closer {
+	return &c19Closer{memo: map[[2]any]int{}, leak: map[[2]any]string{}}
+}
+
+func (k *c19Closer) note(format string, args ...any) {
+	s := fmt.Sprintf(format, args...)
+	for _, n := range k.notes {
+		if n == s {
+			return
+		}
+	}
+	k.notes = append(k.notes, s)
+}
+
+func c19FuncOfValue(v ssa.Value) *ssa.Function {
+	switch x := v.(type) {
+	case *ssa.Parameter:
+		return x.Parent()
+	case ssa.Instruction:
+		return x.Parent()
+	}
+	return nil
+}
+
+func c19Encloses(outer, f *ssa.Function) bool {
+	for ; f != nil; f = f.Parent() {
+		if f == outer {
+			return true
+		}
+	}
+	return false
+}
+
+// closesAt: executing `in` closes root before the next instruction of the same
+// frame runs (plain call), at the frame's exit (defer, only if acceptDefer), or
+// eventually (go). Calls are followed into static callees and local literals
+// that close the channel on every path, through sync.Once.Do and through
+// functions made by sync.OnceFunc.
+func (k *c19Closer) closesAt(in ssa.Instruction, root ssa.Value, acceptDefer bool, depth int) bool {
+	ci, ok := in.(ssa.CallInstruction)
+	if !ok {
+		return false
+	}
+	if _, isDefer := in.(*ssa.Defer); isDefer && !acceptDefer {
+		return false
+	}
+	c := CallSite{in.Parent(), ci}
+	cc := c.Common()
+	if b, ok := cc.Value.(*ssa.Builtin); ok {
+		return b.Name() == "close" && len(cc.Args) == 1 && originValue(cc.Args[0]) == root
+	}
+	if depth > 4 {
+		k.note("call chain deeper than four levels not followed at %s", FuncKey(in.Parent()))
+		return false
+	}
+	if c.IsStatic("sync", "Once", "Do") {
+		return k.onceCloses(c, root, depth)
+	}
+	if !cc.IsInvoke() {
+		if call, ok := originValue(cc.Value).(*ssa.Call); ok && (CallSite{call.Parent(), call}).IsStatic("sync", "", "OnceFunc") {
+			if f := c19ClosureFn(call.Call.Args[0]); f != nil && f.Blocks != nil {
+				return k.mustClose(f, root, depth+1)
+			}
+			k.note("the function given to sync.OnceFunc is not a literal or declared function")
+			return false
+		}
+	}
+	g := c.Callee()
+	if g == nil || g.Blocks == nil {
+		for _, a := range c.Args() {
+			if c19IsChan(a.Type()) && originValue(a) == root {
+				k.note("the channel is handed to a callee that cannot be resolved statically in %s", FuncKey(in.Parent()))
+			}
+		}
+		return false
+	}
+	for i, a := range c.Args() {
+		if c19IsChan(a.Type()) && originValue(a) == root && i < len(g.Params) {
+			if k.mustClose(g, g.Params[i], depth+1) {
+				return true
+			}
+		}
+	}
+	if g.Parent() != nil && c19Encloses(c19FuncOfValue(root), g) {
+		return k.mustClose(g, root, depth+1)
+	}
+	return false
+}
+
+// mustClose: every path from fn's entry to a return passes an instruction that
+// closes root (explicit panics are not exits of interest: they end the process).
+func (k *c19Closer) mustClose(fn *ssa.Function, root ssa.Value, depth int) bool {
+	key := [2]any{fn, root}
+	switch k.memo[key] {
+	case 1:
+		return false // recursion: not a proof
+	case 2:
+		return true
+	case 3:
+		return false
+	}
+	k.memo[key] = 1
+	leak := ""
+	seen := map[*ssa.BasicBlock]bool{}
+	var walk func(b *ssa.BasicBlock, via []*ssa.BasicBlock)
+	walk = func(b *ssa.BasicBlock, via []*ssa.BasicBlock) {
+		if leak != "" || seen[b] {
+			return
+		}
+		seen[b] = true
+		via = append(via, b)
+		for _, in := range b.Instrs {
+			if k.closesAt(in, root, true, depth) {
+				return
+			}
+			switch in.(type) {
+			case *ssa.Return:
+				leak = "return reached via blocks " + blockNames(via)
+				return
+			case *ssa.Panic:
+				return
+			}
+		}
+		for _, s := range b.Succs {
+			walk(s, via)
+		}
+	}
+	if len(fn.Blocks) == 0 {
+		leak = "no body"
+	} else {
+		walk(fn.Blocks[0], nil)
+	}
+	if leak == "" {
+		k.memo[key] = 2
+		return true
+	}
+	k.memo[key] = 3
+	k.leak[key] = leak
+	return false
+}
+
+// onceCloses: once.Do(f) leaves root closed when every function ever given to
+// that Once closes root on all its paths (either f runs now, or an earlier Do
+// ran one of them), and the Once is a local variable used for nothing else.
+func (k *c19Closer) onceCloses(c CallSite, root ssa.Value, depth int) bool {
+	cell, ok := varOf(c.Args()[0])
+	al, isAlloc := cell.(*ssa.Alloc)
+	if !ok || !isAlloc {
+		k.note("the sync.Once used in %s is not a local variable; its other users are not enumerated", FuncKey(c.Fn))
+		return false
+	}
+	aliases := map[ssa.Value]bool{al: true}
+	var collect func(f *ssa.Function)
+	collect = func(f *ssa.Function) {
+		for _, b := range f.Blocks {
+			for _, in := range b.Instrs {
+				if mc, ok := in.(*ssa.MakeClosure); ok {
+					lf := mc.Fn.(*ssa.Function)
+					for i, bnd := range mc.Bindings {
+						if aliases[bnd] && i < len(lf.FreeVars) {
+							aliases[lf.FreeVars[i]] = true
+						}
+					}
+				}
+			}
+		}
+		for _, a := range f.AnonFuncs {
+			collect(a)
+		}
+	}
+	collect(al.Parent())
+	nDo := 0
+	for a := range aliases {
+		refs := a.Referrers()
+		if refs == nil {
+			continue
+		}
+		for _, u := range *refs {
+			switch u := u.(type) {
+			case *ssa.MakeClosure, *ssa.DebugRef:
+			case ssa.CallInstruction:
+				d := CallSite{u.Parent(), u}
+				if !d.IsStatic("sync", "Once", "Do") || d.Args()[0] != a {
+					k.note("the sync.Once of %s is also used by %s", FuncKey(al.Parent()), d.CalleeKey())
+					return false
+				}
+				f := c19ClosureFn(d.Args()[1])
+				if f == nil || f.Blocks == nil {
+					k.note("a function given to the sync.Once of %s is not a literal or declared function", FuncKey(al.Parent()))
+					return false
+				}
+				if !k.mustClose(f, root, depth+1) {
+					return false
+				}
+				nDo++
+			default:
+				k.note("the sync.Once of %s is used other than by Do (%T): it may be reset", FuncKey(al.Parent()), u)
+				return false
+			}
+		}
+	}
+	return nDo > 0
+}
+
+func c19YEnumProtocol(p *Program, r *Reporter) {
+	runSync := p.Func("pkg/server", "SyncHandler", "runSync")
+	sig, _ := c19EnumSig(runSync)
+
+	// launches: calls of an enumerator-typed value in pkg/server
+	var launches []*c19Launch
+	for _, fn := range p.FuncsIn("pkg/server") {
+		if fn.Synthetic != "" {
+			continue
+		}
+		for _, c := range CallsIn(fn, false) {
+			cc := c.Common()
+			if _, isBuiltin := cc.Value.(*ssa.Builtin); isBuiltin {
+				continue
+			}
+			cs := cc.Signature()
+			if cs == nil || !types.Identical(cs, sig) {
+				continue
+			}
+			ar := c.Args()
+			if len(ar) < 2 {
+				continue
+			}
+			l := &c19Launch{call: c, top: TopFunc(fn), dst: ar[len(ar)-2], intr: ar[len(ar)-1]}
+			if g := cc.StaticCallee(); g != nil {
+				if g.Blocks == nil {
+					l.why = "callee without body"
+				} else {
+					l.callees = []*ssa.Function{g}
+				}
+			} else if cc.IsInvoke() {
+				l.why = "enumerator called through an interface method"
+			} else {
+				l.callees, l.why = c19ResolveFuncs(p, cc.Value, 0, map[ssa.Value]bool{})
+				if l.why == "" && len(l.callees) == 0 {
+					l.why = "no function value reaches this call"
+				}
+			}
+			launches = append(launches, l)
+		}
+	}
+	sort.SliceStable(launches, func(i, j int) bool { return FuncKey(launches[i].call.Fn) < FuncKey(launches[j].call.Fn) })
+	r.Analysed("enumerator_launches", len(launches))
+	if len(launches) == 0 {
+		r.Violation("Y-enum-close", FuncKey(runSync)+"#enumerators", p.Pos(runSync.Pos()), "no call of an enumerator value found in pkg/server: the copy loop enumerates nothing")
+		return
+	}
+
+	insts := map[*ssa.Function]*c19EnumInst{}
+	var order []*ssa.Function
+	for _, l := range launches {
+		construct := FuncKey(l.call.Fn) + "#enumerators"
+		site := p.Pos(l.call.Pos())
+		if l.why != "" {
+			r.Undecided("Y-enum-close", construct, site, "the set of functions that can be called here cannot be computed: "+l.why)
+			continue
+		}
+		// a function of enumerator type that forwards its own channels is a delegation, checked through its delegator
+		if prm, ok := originValue(l.dst).(*ssa.Parameter); ok && prm.Parent() == l.top && types.Identical(l.top.Signature, sig) {
+			r.OKTable("Y-enum-close", construct, site, "delegation from an enumerator to another (followed from the delegating enumerator)")
+			continue
+		}
+		var names []string
+		seenFn := map[*ssa.Function]bool{}
+		for _, g := range l.callees {
+			if seenFn[g] {
+				continue
+			}
+			seenFn[g] = true
+			names = append(names, FuncKey(g))
+			n := len(g.Params)
+			if n < 2 {
+				r.Undecided("Y-enum-close", construct, site, "callee "+FuncKey(g)+" has no (dst, intr) parameters")
+				continue
+			}
+			in := insts[g]
+			if in == nil {
+				in = &c19EnumInst{fn: g, dst: g.Params[n-2], intr: g.Params[n-1]}
+				insts[g] = in
+				order = append(order, g)
+			}
+			in.consumers = append(in.consumers, FuncKey(l.top))
+		}
+		sort.Strings(names)
+		r.OKTable("Y-enum-close", construct, site, fmt.Sprintf("%d enumerator(s) can be called here: %s", len(names), strings.Join(names, ", ")))
+
+		// consumer side
+		early, decided := c19ConsumerRule(p, r, l)
+		if early || !decided {
+			for g := range seenFn {
+				if in := insts[g]; in != nil {
+					in.earlyExit = append(in.earlyExit, FuncKey(l.top))
+				}
+			}
+		}
+	}
+
+	sort.Slice(order, func(i, j int) bool { return FuncKey(order[i]) < FuncKey(order[j]) })
+	for _, g := range order {
+		in := insts[g]
+		// Y-enum-close
+		k := newC19Closer()
+		construct := FuncKey(g) + "#closes-output"
+		cons := strings.Join(dedupe(in.consumers), ", ")
+		if k.mustClose(g, in.dst, 0) {
+			r.OK("Y-enum-close", construct, p.Pos(g.Pos()), "the output channel is closed (close, defer, or a callee/literal that closes it) on every path to every return; consumer(s) receiving until it is closed: "+cons)
+		} else {
+			d := "the enumerator can return without closing its output channel (" + k.leak[[2]any{g, ssa.Value(in.dst)}] + "): the consumer (" + cons + ") receives from that channel until it is closed and would block for ever — the copy loop stops delivering"
+			if len(k.notes) > 0 {
+				r.Undecided("Y-enum-close", construct, p.Pos(g.Pos()), d+"; not followed: "+strings.Join(k.notes, "; "))
+			} else {
+				r.Violation("Y-enum-close", construct, p.Pos(g.Pos()), d)
+			}
+		}
+		// Y-stop, enumerator side
+		construct = FuncKey(g) + "#send-interruptible"
+		if len(in.earlyExit) == 0 {
+			r.OKTable("Y-stop", construct, p.Pos(g.Pos()), "not required: no consumer of this enumerator ("+cons+") leaves its receive loop before the channel is closed")
+			continue
+		}
+		n, bad, und := c19SendsInterruptible(p, g, in.dst, in.intr, 0)
+		switch {
+		case len(bad) > 0:
+			r.Violation("Y-stop", construct, p.Pos(g.Pos()), strings.Join(bad, "; ")+": once the consumer ("+strings.Join(dedupe(in.earlyExit), ", ")+") has left its loop early nothing receives any more, the enumerator blocks in that send for ever and the consumer waits for it for ever")
+		case len(und) > 0:
+			r.Undecided("Y-stop", construct, p.Pos(g.Pos()), strings.Join(und, "; "))
+		case n == 0:
+			r.Undecided("Y-stop", construct, p.Pos(g.Pos()), "no send on the output channel found: how elements are delivered cannot be followed")
+		default:
+			r.OK("Y-stop", construct, p.Pos(g.Pos()), fmt.Sprintf("%d send(s) on the output channel, each a case of a select that also receives from the interrupt channel (or cannot block)", n))
+		}
+	}
+}
+
+// c19SendsInterruptible: every send on dst in fn (literals and callees that are
+// handed dst included) is a case of a select that also receives from intr, or
+// of a select with a default case.
+func c19SendsInterruptible(p *Program, fn *ssa.Function, dst, intr ssa.Value, depth int) (n int, bad, und []string) {
+	for _, u := range c19ChanUses(fn, dst) {
+		at := p.Pos(u.in.Pos())
+		switch u.kind {
+		case "send":
+			n++
+			bad = append(bad, "send on the output channel outside a select at "+at+" (in "+FuncKey(u.in.Parent())+")")
+		case "select-send":
+			n++
+			sel := u.in.(*ssa.Select)
+			if !sel.Blocking {
+				continue
+			}
+			ok := false
+			for _, st := range sel.States {
+				if st.Dir == types.RecvOnly && intr != nil && originValue(st.Chan) == intr {
+					ok = true
+				}
+			}
+			if !ok {
+				bad = append(bad, "the select that sends on the output channel at "+at+" (in "+FuncKey(u.in.Parent())+") has no case receiving from the interrupt channel")
+			}
+		case "arg":
+			c := CallSite{u.in.Parent(), u.in.(ssa.CallInstruction)}
+			g := c.Callee()
+			if g == nil || g.Blocks == nil || depth >= 3 || u.arg >= len(g.Params) {
+				und = append(und, "the output channel is handed to "+c.CalleeKey()+" at "+at+", which is not followed")
+				continue
+			}
+			var gi ssa.Value
+			for i, a := range c.Args() {
+				if intr != nil && c19IsChan(a.Type()) && originValue(a) == intr && i < len(g.Params) {
+					gi = g.Params[i]
+				}
+			}
+			m, b2, u2 := c19SendsInterruptible(p, g, g.Params[u.arg], gi, depth+1)
+			n += m
+			bad = append(bad, b2...)
+			und = append(und, u2...)
+		case "escape":
+			und = append(und, "the output channel is stored or converted at "+at+"; its senders cannot be enumerated")
+		}
+	}
+	return
+}
+
+// c19ConsumerRule (Y-stop, consumer side). For the launch `res <- enum(ch, intr)`:
+// on every path that leaves the loop receiving from ch on another edge than
+// "ch closed" and then reaches a receive of the enumerator's result, intr has
+// been closed before that receive.
+func c19ConsumerRule(p *Program, r *Reporter, l *c19Launch) (earlyExit, decided bool) {
+	top := l.top
+	construct := FuncKey(top) + "#wait-for-enumerator"
+	site := p.Pos(l.call.Pos())
+	und := func(s string) (bool, bool) {
+		r.Undecided("Y-stop", construct, site, s)
+		return false, false
+	}
+	E := originValue(l.dst)
+	I := originValue(l.intr)
+	if mk, ok := E.(*ssa.MakeChan); !ok || mk.Parent() != top {
+		return und("the channel handed to the enumerator is not made in the consuming function; the consumer cannot be identified")
+	}
+	switch I.(type) {
+	case *ssa.MakeChan, *ssa.Parameter:
+	default:
+		return und("the interrupt channel handed to the enumerator is not a single channel value (made here, or a parameter)")
+	}
+	// how the consumer receives
+	var headers []*ssa.UnOp
+	for _, u := range c19ChanUses(top, E) {
+		switch u.kind {
+		case "arg":
+			if u.in == ssa.Instruction(l.call.Instr) {
+				continue
+			}
+			return und("the element channel is also handed to " + (CallSite{u.in.Parent(), u.in.(ssa.CallInstruction)}).CalleeKey() + "; its receivers cannot be enumerated")
+		case "recv-ok":
+			if u.in.Parent() != top {
+				return und("the element channel is received from inside a function literal; loop shape not followed")
+			}
+			headers = append(headers, u.in.(*ssa.UnOp))
+		default:
+			return und("the consumer uses the element channel by " + u.kind + " at " + p.Pos(u.in.Pos()) + "; shape not recognised (expected: range / v, ok := <-ch)")
+		}
+	}
+	if len(headers) == 0 {
+		return und("the consumer never receives from the element channel with a closed-test (range); shape not recognised")
+	}
+	// how the consumer learns the enumerator's result
+	val := l.call.Value()
+	var X ssa.Value
+	if val != nil {
+		for _, u := range nonDebug(*val.Referrers()) {
+			snd, ok := u.(*ssa.Send)
+			if !ok || snd.X != ssa.Value(val) {
+				return und("the enumerator's result is used other than by sending it on a channel; how the consumer waits for it is not recognised")
+			}
+			x := originValue(snd.Chan)
+			if X != nil && X != x {
+				return und("the enumerator's result is sent on more than one channel")
+			}
+			X = x
+		}
+	}
+	if X == nil {
+		r.OKTable("Y-stop", construct, site, "the enumerator's result is not awaited by the consumer: nothing to order")
+		return false, true
+	}
+	waits := map[ssa.Instruction]bool{}
+	for _, u := range c19ChanUses(top, X) {
+		switch u.kind {
+		case "recv", "recv-ok", "select-recv":
+			if u.in.Parent() != top {
+				return und("the enumerator's result is received inside a function literal; not followed")
+			}
+			waits[u.in] = true
+		case "send", "select-send":
+			// the launch's own send (and other producers) need no ordering
+		case "close":
+		default:
+			return und("the result channel is used by " + u.kind + " at " + p.Pos(u.in.Pos()) + "; its receivers cannot be enumerated")
+		}
+	}
+	if len(waits) == 0 {
+		r.OKTable("Y-stop", construct, site, "the enumerator's result is never received by the consumer: nothing to order")
+		return false, true
+	}
+	isHeader := map[ssa.Instruction]bool{}
+	var bodies []*ssa.BasicBlock
+	for _, h := range headers {
+		isHeader[h] = true
+		ifi, ok := c19LastInstr(h.Block()).(*ssa.If)
+		if !ok {
+			return und("the closed-test of the receive from the element channel is not the loop condition; shape not recognised")
+		}
+		ex, ok := ifi.Cond.(*ssa.Extract)
+		if !ok || ex.Tuple != ssa.Value(h) || ex.Index != 1 {
+			return und("the closed-test of the receive from the element channel is not the loop condition; shape not recognised")
+		}
+		bodies = append(bodies, h.Block().Succs[0])
+	}
+	k := newC19Closer()
+	explore := func(withCloses bool) (leak string) {
+		seen := map[*ssa.BasicBlock]bool{}
+		var walk func(b *ssa.BasicBlock, via []*ssa.BasicBlock)
+		walk = func(b *ssa.BasicBlock, via []*ssa.BasicBlock) {
+			if leak != "" || seen[b] {
+				return
+			}
+			seen[b] = true
+			via = append(via, b)
+			for _, in := range b.Instrs {
+				if isHeader[in] {
+					return // the loop condition is evaluated again
+				}
+				if waits[in] {
+					leak = "wait at " + p.Pos(in.Pos()) + " reached from the loop body via blocks " + blockNames(via)
+					return
+				}
+				if withCloses && k.closesAt(in, I, false, 0) {
+					return
+				}
+				switch in.(type) {
+				case *ssa.Return, *ssa.Panic:
+					return
+				}
+			}
+			for _, s := range b.Succs {
+				walk(s, via)
+			}
+		}
+		for _, b := range bodies {
+			walk(b, nil)
+		}
+		return leak
+	}
+	if explore(false) == "" {
+		r.OK("Y-stop", construct, site, "the loop receiving from the element channel is left only when that channel is closed (the enumerator has finished): no interrupt is needed before waiting for its result")
+		return false, true
+	}
+	leak := explore(true)
+	if leak == "" {
+		r.OK("Y-stop", construct, site, "every path that leaves the receive loop before the element channel is closed closes the interrupt channel (directly or through a local function / sync.Once) before the consumer waits for the enumerator's result")
+		return true, true
+	}
+	d := "the consumer leaves its receive loop while the enumerator may still be sending and then waits for the enumerator's result without having closed the interrupt channel (a deferred close runs only after that wait): " + leak + " — enumerator and consumer wait for each other for ever, the copy loop stops"
+	if len(k.notes) > 0 {
+		r.Undecided("Y-stop", construct, site, d+"; not followed: "+strings.Join(k.notes, "; "))
+	} else {
+		r.Violation("Y-stop", construct, site, d)
+	}
+	return true, true
 }
